@@ -54,6 +54,9 @@ def pool(seed, tier):
         for label in sorted(picked):
             out.extend(picked[label])
     out.extend(_multiline_docs(seed, tier))
+    out.extend(realistic_docs(seed, tier))
+    out.extend(affix_docs(seed, tier))
+    out.extend(lopsided_docs(seed, tier))
     os.makedirs("/verif/.build", exist_ok=True)
     try:
         pickle.dump(out, open(cache + ".tmp", "wb"))
@@ -89,6 +92,87 @@ def _multiline_docs(seed, tier):
             items = gen.g_ast(rng, depth=rng.choice([1, 2, 3]))
         src = gen.render(items, sp, final_nl=rng.random() < 0.8)
         out.append(("ML", "multiline-tags", src, ds, de, cfgs[i % len(cfgs)]))
+    return out
+
+
+HTML_WORDS = ["<div>", "</div>", "<p>a < b</p>", "<!-- plain comment -->", "<!--x-->", "a <!- b", "x -> y", "<br/>",
+              "if (a < b) {", "<a href='x'>l</a>", "a <! b", "-- >", "->", "<", ">", "<<", "é <ü>", "1 > 0", "<!---->"]
+JS_WORDS = ["a / b", "// comment", "/* plain */", "x = y /2;", "/** doc */", "a*/b", "http://x/y", "/", "*/", "> 0",
+            "x /= 2", "re = /a*/;", "é / ü", "/*!", "1 > 0 */"]
+
+
+def realistic_docs(seed, tier):
+    """documents under the command's default-style delimiters whose plain lines contain the characters of the
+    delimiters - `<`, `!`, `-`, `>` in HTML-like text under `<!-- <` / `> -->`, `/`, `*`, `>` in JS-like text under
+    `/* <` / `> */`: partial matches of a delimiter in the text, none of them directly in front of a tag"""
+    from . import gen
+    from .proto import DEFAULT_CFG
+    rng = random.Random(seed * 15485863 + 5)
+    n = {"quick": 400, "thorough": 6000}[tier]
+    out = []
+    cfgs = [DEFAULT_CFG.to_json(), Cfg(targets=("a", "b")).to_json(), Cfg(now=0, targets=()).to_json()]
+    for i in range(n):
+        (ds, de), words = ((("<!-- <", "> -->"), HTML_WORDS) if i % 2 == 0 else (("/* <", "> */"), JS_WORDS))
+        g = gen.DocGen(rng, depth=rng.choice([1, 2, 3]), p_unwrap=0.4, p_ready=0.7, p_skip=0.05, max_items=4)
+        g.words = words + ["foo", "bar();"]
+        items = g.doc()
+        src = gen.render(items, gen.Spelling(ds, de), final_nl=rng.random() < 0.8)
+        out.append(("RL", "realistic-text", src, ds, de, cfgs[i % len(cfgs)]))
+    return out
+
+
+# (time-limited name, removal-marker name, name of the unregistered tags): one is a proper suffix / prefix of another
+AFFIX_NAMES = [("time-limited", "removal-marker", "limited"), ("time-limited", "removal-marker", "marker"),
+               ("time-limited", "removal-marker", "time"), ("tl", "rm", "l"), ("tl", "rm", "m"), ("tl", "rm", "xtl"),
+               ("tl", "rm", "arm"), ("tl", "rm", "t"), ("tl", "tlx", "zz"), ("xrm", "rm", "zz"), ("tl", "rm", "tl2")]
+
+
+def affix_docs(seed, tier):
+    """documents in which the name of one kind of tag is a proper suffix or prefix of the name of another (`limited`
+    inside `time-limited`, `l` / `xtl` next to `tl`), with stray opening and closing tags of the shorter and the longer
+    name among the plain lines - under `<` `>` and under `<!--` `-->`, where a plain comment is itself a tag"""
+    from . import gen
+    rng = random.Random(seed * 32452843 + 11)
+    n = {"quick": 330, "thorough": 5500}[tier]
+    out = []
+    for i in range(n):
+        tl, rm, other = AFFIX_NAMES[i % len(AFFIX_NAMES)]
+        ds, de = ("<", ">") if i % 3 else ("<!--", "-->")
+        sp = gen.Spelling(ds, de, tl=tl, rm=rm, other=other)
+        g = gen.DocGen(rng, depth=rng.choice([1, 2, 3]), p_unwrap=0.25, p_ready=0.7, p_skip=0.05, max_items=4,
+                       kinds=("tl", "rm", "zz", "zz"), p_inline=0.2 if i % 4 == 0 else 0.0)
+        blank = " " if ds == "<!--" else ""
+        g.words = ["foo", "bar();", "x"] + [ds + blank + w + blank + de for w in
+                                            (other, "/" + other, other + " offer", "/" + tl, "/" + rm, tl, "//" + other)]
+        items = g.doc()
+        src = gen.render(items, sp, final_nl=rng.random() < 0.8)
+        cfg = Cfg(tl=tl, rm=rm, targets=("a", "b") if i % 2 else ("a",))
+        out.append(("AF", "affix-names", src, ds, de, cfg.to_json()))
+    return out
+
+
+# delimiter pairs of very different lengths (and short tag names): a tag can be shorter than one of its delimiters
+LOPSIDED_DELIMS = [("// <", ">"), ("<!-- chiritori:", ">"), ("<", "> ----------"), ("/*************** <", "*/"), ("[", "]]]]]]]]"),
+                   ("<!-- <", ">"), ("{", "}"), ("<", "/>")]
+
+
+def lopsided_docs(seed, tier):
+    """documents under delimiter pairs one of which is much longer than the other, with one-letter tag names, so that
+    a whole tag (the closing tag in particular) is shorter than the longer delimiter"""
+    from . import gen
+    rng = random.Random(seed * 49979687 + 3)
+    n = {"quick": 240, "thorough": 4000}[tier]
+    out = []
+    for i in range(n):
+        ds, de = LOPSIDED_DELIMS[i % len(LOPSIDED_DELIMS)]
+        tl, rm = [("t", "r"), ("tl", "rm"), ("time-limited", "removal-marker")][(i // len(LOPSIDED_DELIMS)) % 3]
+        sp = gen.Spelling(ds, de, tl=tl, rm=rm, other="z")
+        g = gen.DocGen(rng, depth=rng.choice([1, 2, 3]), p_unwrap=0.3, p_ready=0.7, p_skip=0.05, max_items=4)
+        g.words = ["foo", "bar();", "x", "é y"]
+        items = g.doc()
+        src = gen.render(items, sp, final_nl=rng.random() < 0.8)
+        cfg = Cfg(tl=tl, rm=rm, targets=("a", "b") if i % 2 else ("a",))
+        out.append(("LS", "lopsided-delimiters", src, ds, de, cfg.to_json()))
     return out
 
 
